@@ -4,5 +4,7 @@ ASSUMPTIONS = ['csvenc/h_field: quote_style in {minimal, all, nonnumeric}; delim
 STUB_NOTES = ['raw zeroed encoder object, only quote_style_/field_delimiter_/quote_char_/quote_escape_char_ set', 'std::string is the real libstdc++ code on the SSO path; _M_mutate (reallocation) is cut with an assertion: strings <= 15 chars']
 STUBS = ['_ZNSt7__cxx1112basic_stringIcSt11char_traitsIcESaIcEE9_M_mutateEmmPKcm']
 def jobs(tier):
-    return [dict(id='ctor_n%d' % n, harness='h_field', props=['C18'], unwind=2 * n + 6, defs=dict(N=n, CTOR=1), timeout=2400, mem_gb=8, desc='same, on an encoder built by its real constructor from csv_options (option plumbing)', bound='all fields of length %d x every delimiter/quote/escape byte x 3 styles' % n) for n in ((1, 2) if tier == 'thorough' else ())] + [dict(id='field_n%d' % n, harness='h_field', props=['C18'], unwind=2 * n + 6, defs=dict(N=n), timeout=600, mem_gb=8, desc='write_string_value: quoted whenever delimiter/quote/CR/LF present, always under all/nonnumeric; un-quoting gives the field back', bound='all fields of length %d x every delimiter/quote/escape byte x 3 styles' % n)
+    # measured: the real constructor from csv_options (k_csv_field_ctor / k_csv_plumb: ~120 functions of string/vector member copies) gives no verdict in 40 min
+    # (ctor_n1, ctor_n2) resp. 15 min (plumb); the plumbing job is kept as a deep job of the thorough tier only, the ctor_n* jobs were removed
+    return ([dict(id='plumb', harness='h_plumb', props=['C18'], unwind=6, timeout=1800, mem_gb=8, desc='an encoder built by its real constructor from real csv_options carries exactly the quote style, delimiter, quote, escape and subfield characters the options name', bound='every style x every delimiter/quote/escape/subfield byte')] if tier == 'thorough' else []) + [dict(id='field_n%d' % n, harness='h_field', props=['C18'], unwind=2 * n + 6, defs=dict(N=n), timeout=600, mem_gb=8, desc='write_string_value: quoted whenever delimiter/quote/CR/LF present, always under all/nonnumeric; un-quoting gives the field back', bound='all fields of length %d x every delimiter/quote/escape byte x 3 styles' % n)
             for n in ([0, 1, 2, 3, 4] if tier == 'quick' else [0, 1, 2, 3, 4, 5, 6])]
